@@ -222,4 +222,4 @@ def replay(case):
 def shard(ctx: Ctx):
     quick = ctx.tier == 'quick'
     sizes = gen.Sizes(tables=3, columns=4, indexes=2, enums=2, items=3, refs=4, groups=1, stickies=1, props=2)
-    hyp_run(ctx, 'faults', cases(strict_features(), sizes), lambda c: evaluate(c, ctx), 250 if quick else 6000)
+    hyp_run(ctx, 'faults', cases(strict_features(), sizes), lambda c: evaluate(c, ctx), 250 if quick else 2500)
